@@ -169,6 +169,10 @@ def build_kwargs(problem, cfg, trace, hooks=None, checkpoint=None, x0=None):
                 x[:] = np.nan  # the user overwrites the array it was handed
             except (ValueError, TypeError):
                 pass
+            try:
+                kw["x0"][:] = np.nan  # ... and recycles its own start array (it belongs to the user) as scratch space
+            except (ValueError, TypeError, KeyError):
+                pass
         return v
 
     def jac(x, *a):
